@@ -1,14 +1,22 @@
 /-
   C02 — the time-reversed solver returns a circuit that generates the target exactly.
 
-  What is proved here is the soundness of the *validator* that is applied to every circuit the real solver returns
-  (translation validation by a verified checker): if `checkGenerates ne np ops adj` evaluates to `true`, then under EVERY combination
-  of measurement outcomes the circuit, run by the tableau semantics proved in C07/C01, leaves the photons exactly in the graph
-  state |G⟩ (signs included) and every emitter in |0⟩.  The solver itself is not modelled: "for every graph" is explored
-  (exhaustively for small n), not proved.
+  Two layers.
+  (1) Soundness of the *validator* that is applied to every circuit the real solver returns (translation validation by a verified
+      checker): if `checkGenerates ne np ops adj` evaluates to `true`, then under EVERY combination of measurement outcomes the
+      circuit, run by the tableau semantics proved in C07/C01, leaves the photons exactly in the graph state |G⟩ (signs included)
+      and every emitter in |0⟩ (`validator_sound`).
+  (2) Soundness of the *solver model itself* (`Model/Solver.lean`, compared exactly with the implementation on every run), for every
+      target and every size: if `solve` returns and its final working tableau generates the group of |0…0⟩ (hypothesis `hfinal`, printed by the driver for
+      every input and checked by the harness), then the recorded circuit, run from all-|0⟩ under EVERY outcome script, ends in exactly
+      the signed group of `|G⟩ ⊗ |0…0⟩` — the conclusion of `validator_sound` without running the validator (`solve_sound`).
+      The heart is the time-reversed-measurement lemma (`time_reversed_measurement_lemma`).
+  NOT proved: completeness (that `solve` returns and that `hfinal` holds for every graph: the theorem of Li, Economou and Barnes,
+  false on the current tree for graphs with an isolated vertex, finding D3) — `solver_complete_statement`.
 -/
 import GraphiqModel.Proofs.Check
 import GraphiqModel.Proofs.Circuit
+import GraphiqModel.Proofs.SolverSoundMain
 namespace Graphiq.C02
 open Graphiq Graphiq.PRow Graphiq.Tab Graphiq.STab
 
@@ -50,11 +58,106 @@ theorem photons_in_graph_state (ne np : Nat) (ops : List COp) (adj : Nat → Nat
   rw [← hr]
   exact spn_gen (targetSTab np ne adj) v (by show v < np + ne; omega)
 
-/-- full statement kept visible (NOT proved: it needs a model of the solver and its completeness, Li–Economou–Barnes):
+/-- full statement kept visible (NOT proved: it needs completeness, Li–Economou–Barnes):
     for every simple graph the solver returns a circuit accepted by the validator -/
 def solver_correct_statement (solve : (np : Nat) → (Nat → Nat → Bool) → Option (Nat × List COp)) : Prop :=
   ∀ (np : Nat) (adj : Nat → Nat → Bool), (∀ i j, adj i j = adj j i) → (∀ i, adj i i = false) →
     ∃ ne ops, solve np adj = some (ne, ops) ∧ checkGenerates ne np ops adj = true
+
+/-! ## Soundness of the solver model -/
+
+/-- **Time-reversed measurement (all sizes, both outcomes).**  `t`: a real commuting generating set on `np + ne` qubits whose group
+    contains `+Z` on emitter `e` (the emitter is disentangled in |0⟩).  From ANY valid Clifford tableau whose stabilizer group is that
+    of `CNOT(e→p)·H_e·t` (what the solver turns its working tableau into when it records the operation), with ANY remaining outcome
+    script, the compiled `MeasurementCNOTandReset(e→p)` — Z-measurement of the emitter, X on the photon iff the outcome is 1, reset
+    of the emitter to |0⟩ — succeeds, keeps the tableau valid, and ends in exactly the signed group of `t`. -/
+theorem time_reversed_measurement_lemma (np ne e p : Nat) (he : e < ne) (hp : p < np) (t : STab) (hn : t.n = np + ne)
+    (hgood : t.Good) (hZ : t.Spn (PRow.Zq (np + e))) (rs : RunState)
+    (hvalid : rs.t.Valid) (hreal : rs.t.StabReal) (hrn : rs.t.n = np + ne)
+    (hrs : ∀ b, (STab.ofTab rs.t).Spn b ↔ ∃ a, t.Spn a ∧ PRow.EqOn (np + ne) (PRow.cnot (np + e) p (PRow.h (np + e) a)) b) :
+    ∃ rs', stepOp np (np + ne) .prob rs (.mcr ⟨.e, e⟩ ⟨.p, p⟩ 0) = some rs' ∧ rs'.t.Valid ∧ rs'.t.n = np + ne ∧
+      ∀ b, (STab.ofTab rs'.t).Spn b ↔ t.Spn b := by
+  obtain ⟨rs', h1, h2, h3⟩ := Solver.mcr_tab_key np ne e p he hp t hn hgood hZ rs ⟨hvalid, hreal, hrn⟩
+    (Solver.pset_ext hrs)
+  exact ⟨rs', h1, h2.valid, h2.n_eq, fun b => by
+    show Solver.gspan rs'.t b ↔ _
+    rw [h3]⟩
+
+/-- **Soundness of the solver model, any stabilizer target** (`Good`: real, mutually commuting generators).  If `solve target`
+    returns `s` and the final working tableau of the solver generates the group of |0…0⟩ (`hfinal`: equal canonical forms), then the circuit it recorded (`s.cops`: the operation list
+    the driver prints and the harness compares with the implementation's), run by the tableau semantics from all-|0⟩ under EVERY
+    outcome script (of any length), succeeds, stays valid and ends in exactly the signed group of `target ⊗ |0…0⟩`. -/
+theorem solve_sound_stabilizer (target : STab) (hg : target.Good) (s : Solver.St) (h : Solver.solve target = .ok s)
+    (hfinal : s.t.sameGroup (STab.zero (target.n + s.ne)) = true) (script : List Bool) :
+    ∃ rs, stabRun s.ne target.n .prob script s.cops = some rs ∧ rs.t.Valid ∧
+      (STab.ofTab rs.t).n = target.n + s.ne ∧
+      ∀ p, (STab.ofTab rs.t).Spn p ↔ (Solver.withEmitters target s.ne).Spn p := by
+  obtain ⟨rs, h1, h2, h3⟩ := Solver.solve_run_zero target hg s h hfinal script
+  exact ⟨rs, h1, h2, h3.n_eq.trans (Solver.withEmitters_n target s.ne), fun p => ⟨h3.sub p, h3.sup p⟩⟩
+
+/-- **Soundness of the solver model on graph targets** — the conclusion of `validator_sound` without running the validator: for
+    every symmetric adjacency (any size), if `solve` returns `s` with a final working tableau generating the group of |0…0⟩, then under EVERY outcome script the
+    recorded circuit ends with the photons exactly in |G⟩ (signs included) and every emitter in |0⟩. -/
+theorem solve_sound (np : Nat) (adj : Nat → Nat → Bool) (hsym : ∀ i j, adj i j = adj j i) (s : Solver.St)
+    (h : Solver.solve (graphSTab np adj) = .ok s) (hfinal : s.t.sameGroup (STab.zero (np + s.ne)) = true) :
+    ∀ script : List Bool, ∃ rs, stabRun s.ne np .prob script s.cops = some rs ∧ rs.t.Valid ∧
+      (STab.ofTab rs.t).n = np + s.ne ∧ ∀ p, (STab.ofTab rs.t).Spn p ↔ (targetSTab np s.ne adj).Spn p := by
+  intro script
+  obtain ⟨rs, h1, h2, h3⟩ := Solver.solve_run_zero (graphSTab np adj) (Solver.graphSTab_good np adj hsym) s h hfinal script
+  have h4 := h3.trans (Solver.withEmitters_graph np s.ne adj)
+  exact ⟨rs, h1, h2, h4.n_eq, fun p => ⟨h4.sub p, h4.sup p⟩⟩
+
+/-- in the solver's circuit every emitter ends disentangled in |0⟩, under every outcome script -/
+theorem solve_emitters_in_ket0 (np : Nat) (adj : Nat → Nat → Bool) (hsym : ∀ i j, adj i j = adj j i) (s : Solver.St)
+    (h : Solver.solve (graphSTab np adj) = .ok s) (hfinal : s.t.sameGroup (STab.zero (np + s.ne)) = true) (script : List Bool) (e : Nat) (he : e < s.ne) :
+    ∃ rs, stabRun s.ne np .prob script s.cops = some rs ∧ (STab.ofTab rs.t).Spn (PRow.Zq (np + e)) := by
+  obtain ⟨rs, hs, _, _, hiff⟩ := solve_sound np adj hsym s h hfinal script
+  refine ⟨rs, hs, (hiff _).mpr ?_⟩
+  have hr : (targetSTab np s.ne adj).row (np + e) = PRow.Zq (np + e) := by
+    simp only [targetSTab]
+    have : ¬ (np + e < np) := by omega
+    simp [this]
+  rw [← hr]
+  exact spn_gen (targetSTab np s.ne adj) (np + e) (by show np + e < np + s.ne; omega)
+
+/-- and every graph-state generator `X_v ∏_{w ~ v} Z_w` is in the final group, under every outcome script -/
+theorem solve_photons_in_graph_state (np : Nat) (adj : Nat → Nat → Bool) (hsym : ∀ i j, adj i j = adj j i) (s : Solver.St)
+    (h : Solver.solve (graphSTab np adj) = .ok s) (hfinal : s.t.sameGroup (STab.zero (np + s.ne)) = true) (script : List Bool) (v : Nat) (hv : v < np) :
+    ∃ rs, stabRun s.ne np .prob script s.cops = some rs ∧
+      (STab.ofTab rs.t).Spn ⟨fun j => decide (j = v), fun j => decide (j < np) && adj v j, false, false⟩ := by
+  obtain ⟨rs, hs, _, _, hiff⟩ := solve_sound np adj hsym s h hfinal script
+  refine ⟨rs, hs, (hiff _).mpr ?_⟩
+  have hr : (targetSTab np s.ne adj).row v = ⟨fun j => decide (j = v), fun j => decide (j < np) && adj v j, false, false⟩ := by
+    simp [targetSTab, hv]
+  rw [← hr]
+  exact spn_gen (targetSTab np s.ne adj) v (by show v < np + s.ne; omega)
+
+/-- the recorded circuit emits every photon exactly once and uses `max height` emitters (bookkeeping, `Proofs/Solver.lean`) -/
+theorem solve_structure (target : STab) (s : Solver.St) (h : Solver.solve target = .ok s) :
+    s.np = target.n ∧ (∀ p, Solver.emitCount p s.circ = if p < target.n then 1 else 0) ∧
+    Solver.determineNEmitters target = .ok s.ne :=
+  ⟨(Solver.solve_emits_each_photon_once target s h).1, (Solver.solve_emits_each_photon_once target s h).2,
+   Solver.solve_emitter_count target s h⟩
+
+/-- preservation: `solve` keeps its working tableau a real, mutually commuting generating set on `np + ne` qubits (every helper does:
+    gates, row sums, `rref`, the time-reversed measurement), and never changes the register counts -/
+theorem solve_keeps_tableau_good (target : STab) (hg : target.Good) (s : Solver.St) (h : Solver.solve target = .ok s) :
+    s.t.Good ∧ s.t.n = target.n + s.ne ∧ s.np = target.n :=
+  ⟨(Solver.solve_inv target hg s h).good, (Solver.solve_inv target hg s h).n_eq, (Solver.solve_inv target hg s h).np_eq⟩
+
+/-- `rref` (echelon gauge), as the solver uses it between steps, keeps the signed stabilizer group and the `Good`-ness (all sizes) -/
+theorem rref_keeps_group (t t' : STab) (brs : List String) (hg : t.Good) (hr : t.rref = .ok (t', brs)) :
+    t'.n = t.n ∧ t'.Good ∧ ∀ p, t'.Spn p ↔ t.Spn p :=
+  ⟨(STab.rref_spanEq t t' brs hg hr).1.n_eq.symm, (STab.rref_spanEq t t' brs hg hr).2,
+   fun p => ⟨(STab.rref_spanEq t t' brs hg hr).1.sup p, (STab.rref_spanEq t t' brs hg hr).1.sub p⟩⟩
+
+/-- what remains unproved (completeness, Li–Economou–Barnes; false for graphs with an isolated vertex on the current tree — D3):
+    for every simple graph without isolated vertex the solver model returns and its final working tableau generates the group of |0…0⟩
+    (the driver prints this flag for every input and the harness checks it) -/
+def solver_complete_statement : Prop :=
+  ∀ (np : Nat) (adj : Nat → Nat → Bool), (∀ i j, adj i j = adj j i) → (∀ i, adj i i = false) →
+    (∀ i, i < np → ∃ j, j < np ∧ adj i j = true) →
+    ∃ s, Solver.solve (graphSTab np adj) = .ok s ∧ s.t.sameGroup (STab.zero (np + s.ne)) = true
 
 /-! ### Non-vacuity: the 3-photon linear cluster generated by one emitter (H e; CNOT e→p2; H e; CNOT e→p1; H e; CNOT e→p0; H p0; H e; measure-and-reset is not needed) -/
 def lin3ops : List COp :=
@@ -65,5 +168,29 @@ def lin3ops : List COp :=
 def lin3adj : Nat → Nat → Bool := fun i j => (i == 0 && j == 1) || (i == 1 && j == 0) || (i == 1 && j == 2) || (i == 2 && j == 1)
 
 example : countMeas lin3ops = 2 := by decide
+
+/-- the hypotheses of `solve_sound` are met by the 3-photon linear cluster: the model solver returns (one emitter, one
+    measure-and-reset in the circuit) and its final working tableau generates the group of |0…0⟩ -/
+def solveOk (np : Nat) (adj : Nat → Nat → Bool) (ne nmcr : Nat) : Bool :=
+  match Solver.solve (graphSTab np adj) with
+  | .ok s => s.t.sameGroup (STab.zero (np + s.ne)) && decide (s.ne = ne) && decide ((s.circ.filter fun o => match o with | .mcr _ _ => true | _ => false).length = nmcr)
+  | .error _ => false
+
+example : ∀ i j, lin3adj i j = lin3adj j i := by
+  intro i j; simp only [lin3adj]; cases h1 : (i == 0) <;> cases h2 : (j == 1) <;> cases h3 : (i == 1) <;> cases h4 : (j == 0) <;>
+    cases h5 : (j == 2) <;> cases h6 : (i == 2) <;> rfl
+example : solveOk 3 lin3adj 1 1 = true := by decide +kernel
+example : (graphSTab 3 lin3adj).isGood = true := by decide
+example : (match (graphSTab 3 lin3adj).rref with | .ok (t', _) => t'.isGood | .error _ => false) = true := by decide +kernel
+
+/-- the 4-cycle needs two emitters and two time-reversed measurements -/
+def sq4adj : Nat → Nat → Bool := fun i j => (i < 4 && j < 4) && ((i + 1) % 4 == j || (j + 1) % 4 == i)
+example : solveOk 4 sq4adj 2 2 = true := by decide +kernel
+
+/-- a state meeting the hypotheses of `time_reversed_measurement_lemma` (`np = ne = 1`): `t = ⟨Z_p, Z_e⟩`, and the run state
+    obtained by applying `H_e`, `CNOT(e→p)` to |00⟩ has the group `⟨Z_e Z_p, X_e X_p⟩ = CNOT·H·t` -/
+example : (STab.zero 2).Spn (PRow.Zq (1 + 0)) := spn_gen (STab.zero 2) 1 (by decide)
+example : (match stabRun 1 1 .prob [true] [.gate1 .H ⟨.e, 0⟩, .cnot ⟨.e, 0⟩ ⟨.p, 0⟩, .mcr ⟨.e, 0⟩ ⟨.p, 0⟩ 0] with
+    | some rs => (STab.ofTab rs.t).sameGroup (STab.zero 2) | none => false) = true := by decide +kernel
 
 end Graphiq.C02
